@@ -36,8 +36,10 @@ static char *env_home_copy(const char *v)
     snprintf(g_home_buf[g_home_cur], sizeof g_home_buf[0], "%s", v);
     return g_home_buf[g_home_cur];
 }
+static const char *g_tmpdir_override;       /* when set: what TMPDIR answers, whatever else is controlled */
 char *__wrap_getenv(const char *name)
 {
+    if (g_tmpdir_override && !strcmp(name, "TMPDIR")) return (char *) g_tmpdir_override;
     if (g_env_on == 2) {
         if (!strcmp(name, "TMPDIR")) return (g_tmp_mode & 1) ? __real_getenv("VERIF_SCRATCH") : NULL;
         if (!strcmp(name, "TMP")) return (g_tmp_mode & 2) ? __real_getenv("VERIF_SCRATCH") : NULL;
